@@ -477,7 +477,10 @@ def one_call_table(ctx, rule, deep=False):
     radios = [('html', {}, [('body', {}, [('form', {'id': 'f'}, [
         ('input', {'type': 'radio', 'name': 'size', 'id': 's1'}, []), ('input', {'type': 'radio', 'name': 'colour', 'id': 'c1'}, []),
         ('input', {'type': 'radio', 'name': 'size', 'id': 's2', 'checked': ''}, []), ('input', {'type': 'radio', 'name': 'colour', 'id': 'c2', 'checked': ''}, []),
-        ('input', {'type': 'radio', 'name': 'shape', 'id': 'h1'}, [])])])])]
+        ('input', {'type': 'radio', 'name': 'shape', 'id': 'h1'}, []),
+        # group names are compared exactly: Size is another group than size
+        ('input', {'type': 'radio', 'name': 'Size', 'id': 'z1'}, []), ('input', {'type': 'radio', 'name': 'Size', 'id': 'z2'}, []),
+        ('input', {'type': 'radio', 'name': 'SHAPE', 'id': 'h2', 'checked': ''}, [])])])])]
     framed = [('html', {}, [('body', {}, [('div', {'id': 'd'}, [
         ('p', {'id': 'p'}, ['t']), ('iframe', {'id': 'fr'}, [('html', {}, [('body', {}, [('input', {'type': 'checkbox', 'checked': '', 'id': 'ic'}, []), ('a', {'href': 'u', 'id': 'ia'}, ['l']),
                                                                                           ('p', {'id': 'ip'}, [])])])]),
@@ -515,8 +518,31 @@ def one_call_table(ctx, rule, deep=False):
             for e in els:
                 reqs.append((dk, 'match', s_, e, kw_))
                 keys.append((dk, s_, e))
+    # filter(tag) is the matching element children of tag - also when tag is an iframe element, a form, the root
+    fplan = []
+    for dk, (desc, kind, order, els, sels) in meta.items():
+        for e in els:
+            if order[e].get('name') in ('iframe', 'form', 'html', 'textarea', 'svg') and any(not isinstance(c, TextNode) for c in order[e].get('contents')):
+                for s_ in ('*', ':first-child', 'html, input, p, circle', ':not(p)'):
+                    fplan.append((dk, e, s_))
+                    reqs.append((dk, 'filter', s_, e, (('namespaces', ns_f),)))
+                    keys.append((dk, s_, ('filter', e)))
+                    for c in order[e].get('contents'):
+                        if not isinstance(c, TextNode):
+                            ci_ = next(i for i, n_ in enumerate(order) if n_ is c)
+                            reqs.append((dk, 'match', s_, ci_, (('namespaces', ns_f),)))
+                            keys.append((dk, s_, ('fmatch', ci_)))
     res = dict(zip(keys, batch_api(ctx, docs, reqs)))
     bad = None
+    for dk, e, s_ in fplan:
+        desc, kind, order, els, sels = meta[dk]
+        kids_ = [next(i for i, n_ in enumerate(order) if n_ is c) for c in order[e].get('contents') if not isinstance(c, TextNode)]
+        want = [c for c in kids_ if res[(dk, s_, ('fmatch', c))] == ('ok', True)]
+        got = res[(dk, s_, ('filter', e))]
+        rule.instance({'document': f'{desc} ({kind})', 'filter_target': label(order[e]), 'selector': s_, 'as_match_says': got == ('ok', want)}, key=f'one-call|filter|{dk}|{e}|{s_}', sample_cap=4)
+        if got != ('ok', want) and bad is None:
+            show_ = lambda ixs: [(order[i].get('attrs').get('id') or label(order[i])) for i in ixs]      # noqa: E731
+            bad = (desc, kind, f'{s_} [filter() on {label(order[e])}]', show_(got[1]) if got[0] == 'ok' else f'raises {got[1]}', show_(want), [])
     for dk, (desc, kind, order, els, sels) in meta.items():
         for s_ in sels:
             sel = res[(dk, s_, 'select')]
@@ -634,7 +660,9 @@ def compound_conjunction_table(ctx, rule, deep=False):
 
 
 HOSTILE = ['a', 'A', '0', '-', '-0', '--', 'a b', 'a b', 'a\tb', 'a\x0bb', 'a b', 'a\x1cb', 'a.b', 'a#b', 'a:b', 'a"b', "a'b", 'a\\b', 'a\x7fb', '\x01',
-           '\x80', '\x9f', 'é', '\U0001f600', '\U0010ffff', '�', '(', '*', '[x]', 'a,b', 'a>b', '\x00z']
+           '\x80', '\x9f', 'é', '\U0001f600', '\U0010ffff', '�', '(', '*', '[x]', 'a,b', 'a>b', '\x00z',
+           # digits and letters outside ASCII are ordinary identifier characters (str.isdigit() / isalnum() know more digits than CSS)
+           '\u0663x', '-\u0663', '\uff11', '\u00b2a', '\u0967', '-\uff12b', '\u2460', '\u0663']
 
 
 def escape_selects_table(ctx, rule):
@@ -732,6 +760,7 @@ def case_rules_table(ctx, rule):
         ('input', {'type': 'CHECKBOX', 'checked': '', '_label': 'box'}, []),
         ('input', {'TYPE': 'checkbox', 'checked': '', '_label': 'box2'}, []),
         ('a', {'href': 'x', '_label': 'link'}, []),
+        ('span', {'type': 'Multi\nPart', '_label': 'nl'}, []),
     ])])]
     bad = None
     n = 0
@@ -742,7 +771,7 @@ def case_rules_table(ctx, rule):
 
         def names(ns_):
             return [label(x) for x in ns_]
-        U, Lo, B, B2, A = '<upper>', '<lower>', '<box>', '<box2>', '<link>'
+        U, Lo, B, B2, A, NL = '<upper>', '<lower>', '<box>', '<box2>', '<link>', '<nl>'
         rows = [
             ('div', [U, Lo] if html_tree else [Lo]), ('DIV', [U, Lo] if html_tree else [U]), ('Div', [U, Lo] if html_tree else []),
             ('[id]', [U, Lo] if html_tree else [Lo]), ('[ID]', [U, Lo] if html_tree else [U]),
@@ -759,7 +788,10 @@ def case_rules_table(ctx, rule):
             (':root:dir(ltr)', ['<root>'] if html_doc else []),
             # the type of an element is its name as the document type compares names: <DIV> and <div> are one type in HTML trees only
             ('body > div:first-of-type', [U] if html_tree else [Lo]), ('body > DIV:first-of-type', [U]), ('body > :nth-of-type(2)', [Lo, B2] if html_tree else [B2]),
-            ('body > :only-of-type', [A] if html_tree else [U, Lo, A]), ('body > :last-of-type', [Lo, B2, A] if html_tree else [U, Lo, B2, A]),
+            ('body > :only-of-type', [A, NL] if html_tree else [U, Lo, A, NL]), ('body > :last-of-type', [Lo, B2, A, NL] if html_tree else [U, Lo, B2, A, NL]),
+            # a line feed inside a type value is an ordinary character for every operator, in every document type
+            ('[type$=Part]', [NL]), ('[type*=ulti]', [NL]), ('[type^=Multi]', [NL]), ('[type$=part]', [NL] if html_tree else []), ('[type*="i\\a P"]', [NL]),
+            ('[type~=Multi]', [NL]), ('[type|=Multi]', []), ('[type="Multi\\a Part"]', [NL]), ('[type$=Part s]', [NL]), ('[type$=part i]', [NL]),
             ('body > :nth-last-of-type(2)', [U, B] if html_tree else [B]),
         ]
         for s, want in rows:
@@ -930,6 +962,34 @@ def nth_formula_table(ctx, rule):
         if got != ('ok', want) and bad is None:
             bad = (sel, [label(order[i]) for i in got[1]] if got[0] == 'ok' else f'raises {got[1]}', [label(order[i]) for i in want],
                    [label(e) + ('.k' if e.get('attrs').get('class') else '') for e in els])
+    # the element children of the document object are siblings like any others: several top-level elements (an XML tree extended
+    # through the bs4 API, an HTML fragment), counted from both ends
+    tops = [('a', {}, []), 'text', ('b', {}, []), ('#comment', 'c'), ('a', {}, []), ('c', {}, [])]
+    for kind in ('xml', 'html'):
+        d2, o2, _l2 = make_doc(tops, kind)
+        e2 = elements(o2)
+        i2 = {id(n_): i for i, n_ in enumerate(o2)}
+        rows2 = []
+        for pseudo, a, b, of_type, last in ((':first-child', 0, 1, False, False), (':last-child', 0, 1, False, True), (':nth-child(2)', 0, 2, False, False),
+                                            (':nth-last-child(1)', 0, 1, False, True), (':nth-last-child(2)', 0, 2, False, True), (':nth-child(odd)', 2, 1, False, False),
+                                            (':nth-last-child(-n+2)', -1, 2, False, True), (':nth-of-type(1)', 0, 1, True, False), (':nth-last-of-type(1)', 0, 1, True, True),
+                                            (':first-of-type', 0, 1, True, False), (':last-of-type', 0, 1, True, True), (':nth-last-of-type(2)', 0, 2, True, True)):
+            want = []
+            for e in e2:
+                cand = [c for c in e2 if (not of_type or c.get('name') == e.get('name'))]
+                if last:
+                    cand = cand[::-1]
+                posn = [i for i, c in enumerate(cand) if c is e][0] + 1
+                if any(a * k + b == posn for k in range(0, 20)):
+                    want.append(i2[id(e)])
+            rows2.append((pseudo, want))
+        only = [i2[id(e)] for e in e2 if sum(1 for c in e2 if c.get('name') == e.get('name')) == 1]
+        rows2 += [(':only-child', []), (':only-of-type', only)]
+        for (sel, want), got in zip(rows2, batch_api(ctx, {'m': (d2, o2)}, [('m', 'select', r_[0], None, ()) for r_ in rows2])):
+            n += 1
+            if got != ('ok', want) and bad is None:
+                bad = (f'{sel} (select from a {kind} document with the top-level nodes a, text, b, comment, a, c)', [label(o2[i]) for i in got[1]] if got[0] == 'ok' else f'raises {got[1]}',
+                       [label(o2[i]) for i in want], [label(e) for e in e2])
     rule.instance({'api_calls': n}, key='nth-formula')
     rule.obligation(bad is None)
     if bad is not None:
@@ -1189,7 +1249,11 @@ def namespace_table(ctx, rule):
     rows4 = [('h|e:dir(ltr)', ['hx']), ('html|e:defined', []), ('|e', ['bare', 'bare2', 'empty']), ('h|e', ['hx']), ('e', ['hx', 'bare', 'bare2', 'empty']), ('*|e', ['hx', 'bare', 'bare2', 'empty']), ('h|*', ['root', 'body', 'hx']),
              ('|*', ['bare', 'bare2', 'empty'])]
     rows5 = [('e', ['hx']), ('*|e', ['hx', 'bare', 'bare2', 'empty']), ('|e', ['bare', 'bare2', 'empty'])]
+    # a prefix bound to the empty URI denotes "no namespace", like the bare `|`
+    rows6 = [('none|e', ['en']), ('none|*', ['root', 'en', 'gc']), ('*|*:not(none|*)', ['ex', 'ey', 'fx', 'ex2', 'xk']), ('|e', ['en']), ('p|e', ['ex', 'ex2']),
+             (':is(none|e, p|f)', ['en', 'fx'])]
     _rows_table(ctx, rule, 'namespace', [('mixed namespaces, map {p: urn:x, q: urn:y}', 'xml', T, m1, rows1),
+                                         ('mixed namespaces, map {p: urn:x, none: ""}', 'xml', T, {'p': X, 'none': ''}, rows6),
                                          ('mixed namespaces, default namespace urn:x', 'xml', T, m2, rows2),
                                          ('mixed namespaces, prefixes used inside custom selectors', 'xml', T, m1, rows3, custom),
                                          ('XHTML document with elements outside any namespace, map {h: XHTML}', 'xhtml', T4, {'h': XH}, rows4),
@@ -1240,6 +1304,9 @@ def lang_pipeline_table(ctx, rule):
     _rows_table(ctx, rule, 'lang', [('XHTML (XML parser), LANG next to lang', 'xhtml', TX, None, rows_x),
                                     ('namespace-aware HTML with an SVG subtree: xml:lang on foreign ancestors, lang on HTML ones', 'html5', TF, None, rows_f), ('XML, xml:lang next to lang', 'xml', TM, None, rows_m),
                                     ('HTML, content-language pragma', 'html', TH, None, rows_h),
+                                    ('HTML, content-language pragma with a comma (not a single language: the HTML Standard ignores it)', 'html',
+                                     [('html', {'_label': 'root'}, [('head', {}, [('meta', {'http-equiv': 'content-language', 'content': 'en,fr'}, [])]), ('body', {}, [('p', {'_label': 'p'}, [])])])],
+                                     None, [('p:lang(en)', []), ('p:lang(fr)', []), ('p:lang("en-*")', []), ('p:not(:lang(en))', ['p'])]),
                                     ('HTML, look-alike subtrees under different languages', 'html', TS, None, rows_s),
                                     ('XHTML, look-alike subtrees under different languages', 'xhtml', TS, None, rows_s)],
                 'soupsieve/css_match.py (match_lang / extended_language_filter)',
@@ -1302,7 +1369,12 @@ def state_pipeline_table(ctx, rule):
     rows_l = [(':default', ['as', 'bs', 'c1', 'cs', 'ds']), (':indeterminate', ['a1', 'b1', 'd1', 'd2']), ('input[type=radio]:not(:indeterminate)', ['c1', 'c2'])]
     _rows_table(ctx, rule, 'state', [('dir=auto with invalid dir values below', 'html', TD, None, rows_d), ('nested forms and radio groups', 'html', TF, None, rows_f),
                                      ('forms with identical markup', 'html', TL, None, rows_l),
-                                     ('state across an iframe boundary', 'html', TI, None, rows_i)],
+                                     ('state across an iframe boundary', 'html', TI, None, rows_i),
+                                     # whatever text a control contains is its content, also text of a document nested in it (elements inside
+                                     # a textarea: html.parser keeps them)
+                                     ('a textarea that holds an iframe', 'html', STATE_TREE, None, [(':placeholder-shown', ['textarea']), ('textarea:not(:placeholder-shown)', ['textarea', 'textarea']),
+                                                                                                  ('#t2:placeholder-shown', ['textarea']), ('#t1:placeholder-shown', [])]),
+                                     ('a textarea that holds an iframe', 'xhtml', STATE_TREE, None, [(':placeholder-shown', ['textarea']), ('#t1:placeholder-shown', [])])],
                 'soupsieve/css_match.py (match_dir / find_bidi / match_indeterminate / match_default / match_placeholder_shown)',
                 'the HTML Standard (directionality of dir=auto skips only children whose dir attribute is in a defined state; a radio group is the '
                 'same-named radio buttons with the same form owner)')
